@@ -105,10 +105,16 @@ fn run_slice(cap: usize, ops: &[Value]) -> Option<Value> {
 }
 
 fn run_vec(ops: &[Value], dirty_spare: bool) -> Option<Value> {
+    run_vec_with(ops, if dirty_spare { 64 } else { 0 })
+}
+
+/// spare: the vector starts empty with this much spare capacity, holding non-zero garbage (so that "reserved bytes are
+/// zeroed" is observable); small values make writes and reservations straddle the end of the allocation
+fn run_vec_with(ops: &[Value], spare: usize) -> Option<Value> {
     let mut v: Vec<u8> = Vec::new();
-    if dirty_spare {
-        // spare capacity holds non-zero garbage, so that "reserved bytes are zeroed" is observable
-        v = vec![0xEE; 64];
+    if spare > 0 {
+        v = Vec::with_capacity(spare);
+        v.resize(spare, 0xEE);
         v.clear();
     }
     {
@@ -210,7 +216,7 @@ impl Family for Buffers {
         let rendered = json!({"kind": kind, "cap": case["cap"], "len": case["len"], "ops": shape});
         let fail = match kind {
             "slice" => run_slice(case["cap"].as_u64().unwrap_or(0) as usize, &ops),
-            "vec" => run_vec(&ops, false).or_else(|| run_vec(&ops, true)),
+            "vec" => run_vec(&ops, false).or_else(|| run_vec(&ops, true)).or_else(|| [1usize, 2, 3, 5].iter().find_map(|c| run_vec_with(&ops, *c))),
             "source" => run_source(case["len"].as_u64().unwrap_or(0) as usize, &ops),
             _ => Some(json!({"kind": "harness", "what": "unknown kind"})),
         };
